@@ -71,6 +71,8 @@ func (m *Map[K, V]) Get(key K) V {
 	return v
 }
 
+// Contains returns true if the given key has been added to the map.
+// A key that is only being waited for (via Get or GetOrWait) is not contained.
 func (m *Map[K, V]) Contains(key K) bool {
 	return m.shards[m.hasher(key)&m.mask].Contains(key)
 }
@@ -200,8 +202,8 @@ func (s *shard[K, V]) Contains(key K) bool {
 	s.l.RLock()
 	defer s.l.RUnlock()
 
-	_, ok := s.m[key]
-	return ok
+	v, ok := s.m[key]
+	return ok && v.Wait == nil // A placeholder that is only awaited has not been added.
 }
 
 // Range calls f for each key-value pair in this shard.
